@@ -122,6 +122,14 @@ func (d *FileSystemDirectory) Persist(kind string, id uint64, w WriterTo, closeC
 		_ = os.Remove(path)
 	}
 
+	// an item of this name may be left over from a previous incarnation
+	// of the index, make sure none of its content survives
+	err = f.File().Truncate(0)
+	if err != nil {
+		cleanup()
+		return err
+	}
+
 	_, err = w.WriteTo(f.File(), closeCh)
 	if err != nil {
 		cleanup()
